@@ -1423,6 +1423,13 @@ class StyleProcessors:
   class WritingMode(StyleProcessor):
     style_prop = styles.StyleProperties.WritingMode
 
+    @classmethod
+    def inherit(cls, parent: model.ContentElement, element: model.ContentElement):
+      # the writing mode of the region is made available to the content elements, which need it to compute
+      # other style properties, e.g. tts:textEmphasis: since it does not apply to them, it is removed from each
+      # content element once its children have been processed
+      element.set_style(cls.style_prop, parent.get_style(cls.style_prop))
+
   BY_STYLE_PROP = {
     processor.style_prop : processor
     for processor_name, processor in list(locals().items()) if inspect.isclass(processor) and processor.style_prop is not None
